@@ -39,7 +39,7 @@ theorem setMatch_refines (stepsOf : Heap → List (Step Val)) (root : Val) (j jv
         obtain ⟨rfl, rfl⟩ := hset
         have hgen := getMatch_gen (wcx h) (heapwf_keysUniq hi.wf) _ root true pm hg
         have hw := gen_walk (hview h) root pm hgen
-        obtain ⟨nm, j', e1, e2, e3, e4, e5⟩ :=
+        obtain ⟨nm, j', _, e1, e2, e3, e4, e5⟩ :=
           vertexSet_refold h h2 last pm m2 v root j jv hvs hi.unf hi.sep hv hvn hfresh hw
         exact ⟨pm, nm, j', e1, hg, e2, ⟨e3, e4, vertexSet_wf hi.wf last pm m2 v hvs⟩, e5⟩
       · simp at hset
@@ -65,7 +65,7 @@ theorem setMatch_from_match_refines (stepsOf : Heap → List (Step Val)) (root :
         obtain ⟨rfl, rfl⟩ := hset
         have hgen := getMatch_gen_src (wcx h) (heapwf_keysUniq hi.wf) _ root (.nested sm) hsm true pm hg
         have hw := gen_walk (hview h) root pm hgen
-        obtain ⟨nm, j', e1, e2, e3, e4, _⟩ :=
+        obtain ⟨nm, j', _, e1, e2, e3, e4, _⟩ :=
           vertexSet_refold h h2 last pm m2 v root j jv hvs hi.unf hi.sep hv hvn hfresh hw
         exact ⟨pm, nm, j', e1, e2, ⟨e3, e4, vertexSet_wf hi.wf last pm m2 v hvs⟩⟩
       · simp at hset
